@@ -738,7 +738,17 @@ def c14_subsets(rep, tier, seed, rows):
                                "case": case, "impl": impl, "expected_diags": want})
 
 
+def c14_drift_flags(rep, tier, seed):
+    """--enable / --disable in diff mode: drift scenarios (cross-file `affects`, targets that are plain named blocks in files
+    without any rule) under random subsets of the validators"""
+    rep.rules.append("2 000 (thorough: 40 000) drift scenarios (1-3 files, edit scripts rendered as git does, cross-file and same-file `affects`, plain named targets) under a random subset of the seven validators given to --enable or --disable")
+    rows = K.run_component(rep.prop, "diff flags", [], seed, n_for(tier, 2000, 40000), tier)
+    K.correspondence(rep, rows, "diff flags", has_blocks, known=K.load_known("C01"))
+    cli_correspondence(rep, rows, "diff flags", n_for(tier, 200, 2000), subs=("validate",), known=K.load_known("C01"))
+
+
 def c14_extra(rep, tier, seed, rows):
+    c14_drift_flags(rep, tier, seed)
     flags_component(rep, tier, seed)
     c14_flag_errors(rep, tier, seed, rows)
     c14_subsets(rep, tier, seed, rows)
@@ -791,8 +801,11 @@ def c20_run(rep, tier, seed, tr):
     n = n_for(tier, 3000, 40000)
     k = n_for(tier, 60, 600)
     rnd = random.Random(seed)
-    for comp in ["multi", "diff drift"]:
-        rows = K.run_component(rep.prop, comp, [], seed, n, tier)
+    # `lua`: scripted blocks (several blocks per script, scripts that notice state left behind by an earlier block)
+    for comp in ["multi", "diff drift", "lua"]:
+        rows = K.run_component(rep.prop, comp, [], seed, n if comp != "lua" else n_for(tier, 300, 3000), tier)
+        if comp == "lua":
+            k = n_for(tier, 20, 200)
         def nontrivial(case, impl, model):
             return has_blocks(case, impl, model)
         K.correspondence(rep, rows, comp, nontrivial, known=K.load_known(rep.prop))
